@@ -51,7 +51,7 @@ func relayCfg(id, tier string) relay.Config {
 	case "C05":
 		c := relay.Config{Prop: id, Chains: 2, MaxSends: 2, Depth: 12,
 			Sends: []string{"A B erc20 3", "A B erc20+callrevert 1", "B A native 3", "A B feeonly1 1"},
-			RecvForms: []string{"g1", "g2"}, AckForms: []string{"g1", "g2", "old", "conflict", "early", "dup2"}}
+			RecvForms: []string{"g1", "g2"}, AckForms: []string{"g1", "g2", "old", "conflict", "early", "dup2", "altpkt"}}
 		if tier == "thorough" {
 			c.MaxSends, c.Depth = 3, 16
 		}
@@ -75,7 +75,7 @@ func relayTSSCfg(id, tier string) relay.Config {
 	case "C05":
 		c := relay.Config{Prop: id, TSS: true, Chains: 2, MaxSends: 2, Depth: 9,
 			Sends:     []string{"A B erc20 3", "A B erc20+callrevert 1", "B A native 3"},
-			RecvForms: []string{"g1", "g2"}, AckForms: []string{"g1", "g2", "conflict", "early", "dup2"}}
+			RecvForms: []string{"g1", "g2"}, AckForms: []string{"g1", "g2", "conflict", "early", "dup2", "altpkt"}}
 		if tier == "thorough" {
 			c.MaxSends, c.Depth = 3, 12
 		}
@@ -117,7 +117,7 @@ func init() {
 	registerRelay("C02", "explicit-state BFS over three real chains; in every reachable state that has a currently valid receive or acknowledgement message, every single mutation (thorough: every pair) of packet fields, ack fields, proof bytes, proven key, proof height, stated height and signer is delivered to a fork of that state; oracle = ground truth from the counterparty world: accepted => the source store at proofHeight-1 holds sha256(canonical packet) under exactly that triple and the consensus root equals the source app hash (acks: local commitment matches and the counterparty stores sha256(ack bytes)); rejected => store dumps unchanged", assume, 8)
 	registerRelay("C03", "explicit-state BFS over two real chains: sends of ERC-20 / native / returning bound tokens with call data that succeeds, reverts, targets an EOA, fails in the post-transaction hook, or nests a failing cross-chain send; relays and acks in all orders; after every state the reference ledger of transfers (sent -> executed ok|failed -> acked|refunded) is compared with outTokens, endpoint escrow, bindings.amount and bound-token supply; error acks must leave no EVM/bank effect outside the packet contract; refunds must equal the amount exactly once", assume, 6)
 	registerRelay("C04", "explicit-state BFS on chain A with clients for B and C: valid and failing sends (unknown destination, amount above balance, direct packet.sendPacket by a user), several destinations, sends triggered from inside a received packet (agent contract), interleaved with receives; after every tx: keeper counter = contract counter = ledger, every new commitment is numbered next, equals sha256 of the emitted bytes and has a matching event; failed sends change nothing", assume, 5)
-	registerRelay("C05", "explicit-state BFS over two real chains with duplicated, conflicting, early and repeated acknowledgements and packets whose execution fails; every tx: acks/ keys never change or disappear, an accepted receive writes exactly one ack = sha256(announced bytes), a commitment disappears only in an accepted ack whose packet hashes to it and whose ack bytes the counterparty really stores (ground truth from the counterparty's store), ackStatus 0->1|2 once, relayer fee once, refund once", assume, 6)
+	registerRelay("C05", "explicit-state BFS over two real chains (Tendermint-secured, and a variant where one direction is TSS-secured) with duplicated, conflicting, early and repeated acknowledgements, acknowledgements carrying an altered packet body under the same triple, and packets whose execution fails; every tx: acks/ keys never change or disappear, an accepted receive writes exactly one ack = sha256(announced bytes), a commitment disappears only in an accepted ack whose packet hashes to it and whose ack bytes the counterparty really stores (ground truth from the counterparty's store), ackStatus 0->1|2 once, relayer fee once, refund once", assume, 6)
 	registerRelay("C01", "explicit-state BFS over 2-3 real chains joined by real tendermint clients and IAVL proofs; ops: send / client update / receive in 8 forms (genuine by either relayer, re-encoded, altered payload, older proof, mis-stated height, twice in one tx, twice in one block) / ack; every tx compared with the reference ledger of accepted triples; states deduplicated on per-packet life-cycle stage + provability + token balances",
 		[]string{"tendermint light client and IAVL proofs are the real ones; trusting period never reached within the horizon", "heights/times/app hashes are dropped from the canonical key (futures depend on them only through provability of pending artefacts)"}, 6)
 }
